@@ -14,10 +14,10 @@ import (
 // Curve is a short-Weierstrass prime curve y^2 = x^3 + A x + B with its own (math/big, Jacobian) arithmetic.
 // Only CONSTANTS are taken from crypto/elliptic and the brainpool package; no group operation of theirs is used.
 type Curve struct {
-	Name              string
-	OID               asn1.ObjectIdentifier
+	Name               string
+	OID                asn1.ObjectIdentifier
 	P, A, B, Gx, Gy, N *big.Int
-	H                 int64
+	H                  int64
 }
 
 // CurveNames lists the 11 curves of ICAO 9303-12 in the order used by the checks.
